@@ -1,4 +1,4 @@
-CONSTANTS Strict = FALSE  JudgeEvaluator = TRUE
+CONSTANT Strict = FALSE
 INIT TraceInit
 NEXT TraceNext
 POSTCONDITION AllConsumed
